@@ -1530,6 +1530,11 @@ def r16_14(rep: Report, idx: Index) -> None:
             return summaries[id(fn)]
         if fn.name in stack:
             return frozenset()
+        key_ = id(fn)
+        try:
+            fn = rep.repo.normaliser.expand(fn)        # match -> if, helpers that are new inlined
+        except Exception:
+            pass
         methods = {}
         for k in reversed(lineage(c)):
             for m in k.node.body:
@@ -1551,7 +1556,9 @@ def r16_14(rep: Report, idx: Index) -> None:
                         if call.func.attr == 'apply_defaults' and call.args:
                             d = call.args[0]
                             if isinstance(d, ast.Name):
-                                ds = [a.value for a in ast.walk(fn) if isinstance(a, ast.Assign) and norm(a.targets[0]) == d.id]
+                                ds = [a.value for a in ast.walk(fn) if isinstance(a, (ast.Assign, ast.AnnAssign))
+                                      and getattr(a, 'value', None) is not None
+                                      and norm(a.targets[0] if isinstance(a, ast.Assign) else a.target) == d.id]
                                 d = ds[0] if len(ds) == 1 else None
                             if isinstance(d, ast.Dict):
                                 out.extend(k_.value for k_ in d.keys if isinstance(k_, ast.Constant))
@@ -1565,7 +1572,7 @@ def r16_14(rep: Report, idx: Index) -> None:
                 exits.append(frozenset(s_))
         Flow(MustFacts(gen), on_exit=on_exit).run(fn, frozenset())
         res = frozenset.intersection(*exits) if exits else frozenset()
-        summaries[id(fn)] = res
+        summaries[key_] = res
         return res
     def conditional_assigns(c, m: ast.FunctionDef) -> list[tuple[str, str]]:
         """(parameter, attribute) for `if <parameter>: self.<attribute> = ..` at the top level of a method: the
